@@ -111,6 +111,19 @@ func (h *harness) onRunReturn(r runResult) {
 	if w.lastReplyKind == "idle" && w.lastReplyValid && w.active != 0 {
 		w.violate("Run returned after a valid \"idle\" reply while an Execute call is still active")
 	}
+	if w.lastReplyKind == "exec_rejected" {
+		// The worker could not validate the request the scheduler handed it.
+		// The caller must learn about it (LaunchWorkerThread logs the error and
+		// backs off before the next round); the worker has not gone idle from
+		// the scheduler's point of view, so the may-terminate oracle below
+		// applies as after any other execute reply.
+		if r.err == nil {
+			w.violate("Run returned no error although the scheduler's execute request failed the worker's validation (%s)", w.actions[len(w.actions)-1].whyNot)
+		}
+		if r.cancelled {
+			w.label("run_returned_after_shutdown_with_rejected_execute")
+		}
+	}
 	if r.mayTerminate && r.cancelled {
 		ok, why := w.mayTerminateAllowed(h.clk.Now())
 		if !ok {
@@ -273,8 +286,22 @@ var (
 	genCode       = rapid.SampledFrom([]int{0, 0, 0, 1, 2, 13, 14, 4})
 )
 
+var (
+	// Instance name suffixes digest.NewInstanceName refuses: a component that
+	// is one of the REv2 reserved keywords, or redundant slashes.
+	genBadSuffix = rapid.SampledFrom([]string{
+		"blobs", "uploads", "actions", "actionResults", "operations", "capabilities", "compressed-blobs",
+		"a/blobs", "uploads/b", "foo/blobs/bar", "a/b/operations",
+		"/", "/a", "a/", "a//b", "//",
+	})
+	// Digest function values InstanceName.GetDigestFunction(value, 0) refuses.
+	genBadDF = rapid.SampledFrom([]string{"UNKNOWN", "UNKNOWN", "VSO", "MURMUR3", "1000", "-1"})
+	// Malformed action digests (not looked at by BuildClient).
+	genBadDigest = rapid.SampledFrom([]string{"short_hash", "nonhex", "neg_size", "empty_hash"})
+)
+
 func drawAction(rt *rapid.T) *actionPlan {
-	return &actionPlan{
+	a := &actionPlan{
 		Digest:     rapid.IntRange(0, 2).Draw(rt, "digest"),
 		Code:       genCode.Draw(rt, "code"),
 		Exit:       rapid.SampledFrom([]int{0, 0, 1}).Draw(rt, "exit"),
@@ -283,6 +310,24 @@ func drawAction(rt *rapid.T) *actionPlan {
 		Trace:      rapid.SampledFrom([]string{"", "valid", "junk"}).Draw(rt, "trace"),
 		Suffix:     rapid.SampledFrom([]string{"", "suffix", "a/b"}).Draw(rt, "suffix"),
 	}
+	// Execute requests that fail the worker's validation (startExecution):
+	// about one execute reply in six.
+	switch rapid.SampledFrom([]string{"", "", "", "", "", "", "", "", "", "", "", "", "", "", "", "df", "df", "suffix", "suffix", "df+suffix"}).Draw(rt, "reject") {
+	case "df":
+		a.Reject = "df"
+		a.DF = genBadDF.Draw(rt, "bad_df")
+	case "suffix":
+		a.Reject = "suffix"
+		a.Suffix = genBadSuffix.Draw(rt, "bad_suffix")
+	case "df+suffix":
+		a.Reject = "df+suffix"
+		a.DF = genBadDF.Draw(rt, "bad_df")
+		a.Suffix = genBadSuffix.Draw(rt, "bad_suffix")
+	}
+	if rapid.IntRange(0, 9).Draw(rt, "malformed_action_digest") == 0 {
+		a.BadDigest = genBadDigest.Draw(rt, "bad_digest")
+	}
+	return a
 }
 
 func drawReply(rt *rapid.T) *replyPlan {
